@@ -13,13 +13,14 @@ import (
 
 // KnownFinding is an entry of /verif/known_findings.json.
 type KnownFinding struct {
-	ID         string `json:"id"`
-	Property   string `json:"property"`
-	Obligation string `json:"obligation"`       // obligation name (may end in * to match a prefix)
-	Region     string `json:"region,omitempty"` // contract-language predicate over the function's parameters (entry state)
-	What       string `json:"what"`
-	Status     string `json:"status,omitempty"` // "open" (default) or "fixed: ..."
-	Replay     string `json:"replay,omitempty"`
+	ID         string   `json:"id"`
+	Property   string   `json:"property"`
+	Also       []string `json:"also,omitempty"`   // other properties whose checks decide the same obligation
+	Obligation string   `json:"obligation"`       // obligation name (may end in * to match a prefix)
+	Region     string   `json:"region,omitempty"` // contract-language predicate over the function's parameters (entry state)
+	What       string   `json:"what"`
+	Status     string   `json:"status,omitempty"` // "open" (default) or "fixed: ..."
+	Replay     string   `json:"replay,omitempty"`
 }
 
 type CheckConfig struct {
@@ -470,7 +471,7 @@ func matchKnown(known []KnownFinding, prop, obl string) []*KnownFinding {
 		if strings.HasPrefix(k.Status, "fixed") {
 			continue
 		}
-		if k.Property != prop && prop != "ALL" {
+		if k.Property != prop && prop != "ALL" && !hasProp(k.Also, prop) {
 			continue
 		}
 		if k.Obligation == obl || (strings.HasSuffix(k.Obligation, "*") && strings.HasPrefix(obl, strings.TrimSuffix(k.Obligation, "*"))) {
